@@ -50,6 +50,7 @@ class EventHeap:
         # Per-heap event counter for parallel partition isolation.
         # Set via _active_sim_context so Event/ProcessContinuation use it.
         self._event_counter: count = count()
+        self._counter_aligned = False
 
     def continue_counter_after_pending(self) -> None:
         """Make run-time sort indices continue above every pending event.
@@ -63,6 +64,12 @@ class EventHeap:
         (returned by a handler later): they are not pending yet, so the
         global counter is consulted as well.
         """
+        if self._counter_aligned:
+            # Already done for this heap (ParallelSimulation aligns all of its
+            # partitions up front, in declaration order, so that the floors do
+            # not follow the order in which worker threads start them).
+            return
+        self._counter_aligned = True
         floor = _first_unused_global_sort_index()
         if self._heap:
             floor = max(floor, max(event._sort_index for event in self._heap) + 1)
